@@ -1859,6 +1859,7 @@ def SessClean (ss : Sess) : Prop := SlClean ss.s0 ∧ SlClean ss.s1 ∧ ss.desyn
 def StmtWF : Stmt → Prop
   | .un answer _ => WF answer
   | .sq t0 t1 _ => (∀ t ∈ t0, TWF t) ∧ (∀ t ∈ t1, TWF t)
+  | .mq pieces _ => ∀ r ∈ pieces, WF [r]
   | _ => True
 
 theorem SlClean.fit {s : Sl} (h : SlClean s) : s.fit = true := by
@@ -1886,6 +1887,28 @@ theorem SlClean.after {s : Sl} (pin : Bool) {ca : ConnAfter} (hc : CleanAfter ca
     · split
       · intro l hl; simp at hl
       · intro l hl; simp at hl; exact hl.symm
+
+/-- The statements of a multi-statement packet never run into each other's
+    packets, and slice-0's connection is clean afterwards. -/
+theorem mqLoop_clean (T : Nat) (m : Int) (armed pin : Bool) :
+    ∀ (pieces : List Res) (s0 : Sl) (b : Option Nat) (acc : List RView),
+      SlClean s0 → (∀ r ∈ pieces, WF [r]) →
+      SlClean (mqLoop T m armed pin pieces s0 b acc).sl ∧ (mqLoop T m armed pin pieces s0 b acc).desync = false := by
+  intro pieces
+  induction pieces with
+  | nil => intro s0 b acc h _; exact ⟨h, rfl⟩
+  | cons r rest ih =>
+    intro s0 b acc h hw
+    have hc : CleanAfter (unStmt T m armed [r] b).conn := unResults_clean T m armed (hw r (by simp)) true b []
+    have ha : SlClean (s0.after pin (unStmt T m armed [r] b).conn).1 := SlClean.after pin hc
+    simp only [mqLoop, h.fit, Bool.not_true, Bool.false_eq_true, if_false]
+    cases rest with
+    | nil => exact ⟨ha, rfl⟩
+    | cons r' rest' =>
+      simp only
+      split
+      · exact ih _ _ _ ha (fun x hx => hw x (by simp [hx]))
+      · exact ⟨ha, rfl⟩
 
 theorem sqStep_clean (ss : Sess) (r0 r1 : Option (SliceOut × ConnAfter)) (b : Option Nat)
     (hc : SessClean ss)
@@ -1934,6 +1957,10 @@ theorem step_clean (T : Nat) (m : Int) (armed : Bool) (ss : Sess) (st : Stmt)
       simp only [h0.fit, Bool.not_true, Bool.false_eq_true, if_false]
       refine ⟨SlClean.after _ ?_, h1, hd⟩
       exact unResults_clean T m armed hw true b []
+    | mq pieces b =>
+      obtain ⟨g1, g2⟩ := mqLoop_clean T m armed (ss.tx || ss.ks) pieces ss.s0 b [] h0 hw
+      simp only [g2, Bool.false_eq_true, if_false]
+      exact ⟨g1, h1, hd⟩
     | sq t0 t1 b =>
       simp only [h0.fit, h1.fit, Bool.not_true, Bool.and_false, Bool.or_self, Bool.false_eq_true, if_false]
       apply sqStep_clean _ _ _ _ hc'
@@ -2122,6 +2149,122 @@ theorem session_sq_complete_or_error (T : Nat) (m : Int) (armed : Bool) (ss ss' 
     rw [← f1]; rfl
   rw [g0, g1]
 
+/-! ### multi-statement packets split by the proxy (`doMultiStmts`) -/
+
+/-- `vs` is what a client may be shown of the answers to the statements `ps` of
+    one packet, in order: every result it is told is complete is the result of
+    the corresponding statement — for a result set all rows of a complete
+    backend result, within the limit — and at most the last one it sees is cut
+    short. -/
+inductive PiecesShown (m : Int) : List RView → List Res → Prop
+  | nil (ps : List Res) : PiecesShown m [] ps
+  | okp (f more : Bool) {vs : List RView} {ps : List Res} :
+      PiecesShown m vs ps → PiecesShown m (.okp f :: vs) (.okp more :: ps)
+  | full (f more : Bool) {rows : List Row} {body rest : List Pkt} {vs : List RView} {ps : List Res} :
+      Complete body rows rest → (m > 0 → (rows.length : Int) ≤ m) → PiecesShown m vs ps →
+      PiecesShown m (.rs rows (some f) :: vs) (.set more body :: ps)
+  | part (more : Bool) {rows : List Row} {body tail : List Pkt} (ps : List Res) :
+      body = rowsOf rows ++ tail → PiecesShown m [.rs rows none] (.set more body :: ps)
+
+/-- `vs` is the whole answer to the packet: the result of every statement, each
+    in full, SERVER_MORE_RESULTS_EXISTS on all of them but the last. -/
+inductive PiecesDone (m : Int) : List RView → List Res → Prop
+  | lastOkp : PiecesDone m [.okp false] [.okp false]
+  | lastSet {rows : List Row} {body rest : List Pkt} :
+      Complete body rows rest → (m > 0 → (rows.length : Int) ≤ m) →
+      PiecesDone m [.rs rows (some false)] [.set false body]
+  | okp {vs : List RView} {ps : List Res} :
+      PiecesDone m vs ps → PiecesDone m (.okp true :: vs) (.okp false :: ps)
+  | set {rows : List Row} {body rest : List Pkt} {vs : List RView} {ps : List Res} :
+      Complete body rows rest → (m > 0 → (rows.length : Int) ≤ m) → PiecesDone m vs ps →
+      PiecesDone m (.rs rows (some true) :: vs) (.set false body :: ps)
+
+/-- one statement's answer (`Shown` of a single result), with the flag set -/
+theorem piecesShown_flagMore {m : Int} {vs : List RView} {r : Res} (ps : List Res) (h : Shown m vs [r]) :
+    PiecesShown m (flagMore vs) (r :: ps) ∧ PiecesShown m vs (r :: ps) := by
+  cases h with
+  | nil => exact ⟨.nil _, .nil _⟩
+  | okp more h' => cases h'; exact ⟨.okp true more (.nil _), .okp more more (.nil _)⟩
+  | full more hc hl h' => cases h'; exact ⟨.full true more hc hl (.nil _), .full more more hc hl (.nil _)⟩
+  | part more _ hb => exact ⟨.part more ps hb, .part more ps hb⟩
+
+theorem finished_single {m : Int} {vs : List RView} {r : Res} (h : Finished m vs [r]) :
+    (vs = [.okp false] ∧ r = .okp false) ∨
+    (∃ rows body rest, vs = [.rs rows (some false)] ∧ r = .set false body ∧ Complete body rows rest ∧
+      (m > 0 → (rows.length : Int) ≤ m)) := by
+  cases h with
+  | okp _ => exact .inl ⟨rfl, rfl⟩
+  | okpMore h' => cases h'
+  | set _ hc hl => exact .inr ⟨_, _, _, rfl, rfl, hc, hl⟩
+  | setMore _ _ h' => cases h'
+
+theorem mqLoop_sound (T : Nat) (m : Int) (armed pin : Bool) :
+    ∀ (pieces : List Res) (s0 : Sl) (b : Option Nat) (acc : List RView),
+      (mqLoop T m armed pin pieces s0 b acc).desync = false →
+      ∃ vs, (mqLoop T m armed pin pieces s0 b acc).views = acc ++ vs ∧ PiecesShown m vs pieces ∧
+        (pieces ≠ [] → (mqLoop T m armed pin pieces s0 b acc).fin = .done → PiecesDone m vs pieces) := by
+  intro pieces
+  induction pieces with
+  | nil => intro s0 b acc _; exact ⟨[], by simp [mqLoop], .nil _, fun h => absurd rfl h⟩
+  | cons r rest ih =>
+    intro s0 b acc hd
+    obtain ⟨hs, hf⟩ := stmt_complete_or_error T m armed [r] b
+    simp only [mqLoop] at hd ⊢
+    by_cases hfit : (!s0.fit) = true
+    · rw [if_pos hfit] at hd; simp at hd
+    · rw [if_neg hfit] at hd ⊢
+      cases rest with
+      | nil =>
+        simp only
+        refine ⟨_, rfl, (piecesShown_flagMore [] hs).2, ?_⟩
+        intro _ hdone
+        rcases finished_single (hf hdone) with ⟨e1, e2⟩ | ⟨rows, body, rest, e1, e2, hc, hl⟩
+        · rw [e1, e2]; exact .lastOkp
+        · rw [e1, e2]; exact .lastSet hc hl
+      | cons r' rest' =>
+        simp only at hd ⊢
+        by_cases hdone : (unStmt T m armed [r] b).fin = .done
+        · rw [if_pos hdone] at hd ⊢
+          obtain ⟨vs, e1, e2, e3⟩ := ih _ _ _ hd
+          refine ⟨flagMore (unStmt T m armed [r] b).views ++ vs, by rw [e1]; simp, ?_, ?_⟩
+          · rcases finished_single (hf hdone) with ⟨g1, g2⟩ | ⟨rows, body, rest, g1, g2, hc, hl⟩
+            · rw [g1, g2]; exact .okp true false e2
+            · rw [g1, g2]; exact .full true false hc hl e2
+          · intro _ hd2
+            have := e3 (by simp) hd2
+            rcases finished_single (hf hdone) with ⟨g1, g2⟩ | ⟨rows, body, rest, g1, g2, hc, hl⟩
+            · rw [g1, g2]; exact .okp this
+            · rw [g1, g2]; exact .set hc hl this
+        · rw [if_neg hdone]
+          exact ⟨_, rfl, (piecesShown_flagMore _ hs).1, fun _ h => absurd h hdone⟩
+
+/-- **C39, a packet of several statements (`doMultiStmts`).** Whatever the
+    backend answers to each statement, for every limit, deadline, client
+    behaviour, inside or outside a transaction: the client is shown, statement
+    by statement and in order, results that are — when presented as complete —
+    all rows of that statement's complete backend result within the limit, at
+    most the last one cut short (and then followed by an error or a closed
+    connection: a failing statement ends the answer); and if the answer ends as
+    finished, it holds the full result of *every* statement of the packet, with
+    SERVER_MORE_RESULTS_EXISTS on all of them but the last. -/
+theorem session_mq_complete_or_error (T : Nat) (m : Int) (armed : Bool) (ss ss' : Sess) (pieces : List Res)
+    (b : Option Nat) (a : Answer) (h : step T m armed ss (.mq pieces b) = (ss', some a)) :
+    PiecesShown m a.views pieces ∧ (pieces ≠ [] → a.fin = .done → PiecesDone m a.views pieces) := by
+  simp only [step] at h
+  by_cases hg : (!ss.alive || ss.desync) = true
+  · rw [if_pos hg] at h; simp at h
+  · rw [if_neg hg] at h
+    by_cases hd : (mqLoop T m armed (ss.tx || ss.ks) pieces ss.s0 b []).desync = true
+    · rw [if_pos hd] at h; simp at h
+    · rw [if_neg hd] at h
+      simp only [Prod.mk.injEq, Option.some.injEq] at h
+      obtain ⟨vs, e1, e2, e3⟩ := mqLoop_sound T m armed (ss.tx || ss.ks) pieces ss.s0 b [] (by simpa using hd)
+      simp only [List.nil_append] at e1
+      rw [← h.2]
+      simp only
+      rw [e1]
+      exact ⟨e2, e3⟩
+
 /-- **C39, whole sessions: no statement ever reads another statement's packets
     (`session_never_desyncs`).** For every history of a session — statements in
     and outside transactions, with or without keep-session, with or without a
@@ -2183,5 +2326,16 @@ example : (step 10 (-1) false (Sess.init false)
     some ⟨[], .err .backend, true⟩ := by decide
 
 example : WF [.set true (bodyOf [⟨0, 6⟩] .eof), .okp false] := .setMore _ .okpLast
+
+-- a packet of two statements, the first answer of two chunks: both delivered, the flag on the first
+example : (step 10 (-1) false (Sess.init false)
+    (.mq [.set false [.row ⟨0, 6⟩, .row ⟨1, 6⟩, .row ⟨2, 6⟩, .eof], .set false [.row ⟨3, 6⟩, .eof]] none)).2 =
+    some ⟨[.rs [⟨0, 6⟩, ⟨1, 6⟩, ⟨2, 6⟩] (some true), .rs [⟨3, 6⟩] (some false)], .done, true⟩ := by decide
+
+-- … with row limit 3 the first statement fails between its chunks: error, the second one is not run
+example : (step 10 3 false (Sess.init false)
+    (.mq [.set false [.row ⟨0, 6⟩, .row ⟨1, 6⟩, .row ⟨2, 6⟩, .row ⟨3, 6⟩, .row ⟨4, 6⟩, .eof],
+          .set false [.row ⟨5, 6⟩, .eof]] none)).2 =
+    some ⟨[.rs [⟨0, 6⟩, ⟨1, 6⟩] none], .err .limit, true⟩ := by decide
 
 end GaeaVerif.C39
